@@ -48,6 +48,8 @@ type idp struct {
 	family int
 	tokN   int
 	nCodes int
+	mintFor string // provider id (path prefix) the answer being minted belongs to
+	answers int // token-endpoint answers sent (every other one declares a charset)
 
 	discoveryOutage int // the next n discovery requests are answered 503
 	discoveryHits   int
@@ -94,7 +96,8 @@ func (p *idp) authorize(l *login) (code, sym string) {
 	p.mu.Lock()
 	defer p.mu.Unlock()
 	p.nCodes++
-	code = randMarker("code-")
+	// (shaped like the codes real providers mint: a slash, base64 with '+', '/', '=' - everything a query must escape)
+	code = "4/0A" + randMarker("code-") + "+/x=="
 	sym = fmt.Sprintf("code%d", p.nCodes)
 	p.codes[code] = &codeRec{sym: sym, login: l}
 	p.d.rec.bind("code", code, sym)
@@ -290,6 +293,7 @@ func (p *idp) token(w http.ResponseWriter, r *http.Request, idpID string) {
 		if cr != nil {
 			cr.used = true
 		}
+		p.mintFor = idpID
 		doc, iss := p.mint(ans, grant, lg, rr)
 		issued = iss
 		mintedDoc = doc
@@ -338,7 +342,16 @@ func (p *idp) token(w http.ResponseWriter, r *http.Request, idpID string) {
 		_, _ = w.Write([]byte(`{"error":"server_error"}`))
 		return
 	}
-	w.Header().Set("Content-Type", "application/json")
+	// RFC 6749 5.1 sends "application/json;charset=UTF-8"; every other answer does so here
+	p.mu.Lock()
+	p.answers++
+	withCharset := p.answers%2 == 0
+	p.mu.Unlock()
+	if withCharset {
+		w.Header().Set("Content-Type", "application/json;charset=UTF-8")
+	} else {
+		w.Header().Set("Content-Type", "application/json")
+	}
 	w.WriteHeader(status)
 	_, _ = w.Write(body)
 }
@@ -375,6 +388,7 @@ func (p *idp) mint(ans *AnsSpec, grant string, lg *login, old *rtRec) (map[strin
 	if class == "expired" {
 		ts.Exp = d.unix(now - 10)
 	}
+	ts.Iss = p.base(p.mintFor) // the issuer this provider publishes in its discovery document
 	if ans.Big {
 		ts.Groups = 300
 	}
